@@ -714,7 +714,7 @@ def build_progs(ctx):
 def e2e(ctx, objdir):
     uft = os.path.join(objdir, "uftrace")
     ps, pm = build_progs(ctx)
-    rounds = ctx.n(2, 8)
+    rounds = ctx.n(3, 8)
     pairs, meta = [], []
     for rnd in range(rounds):
         root = os.path.join(ctx.scratch, "e2e%d" % rnd)
@@ -800,7 +800,8 @@ def witness_same_dirname(ctx, exe):
     b["pre_sleep"] = 100000      # b connects at once but sends its directory name after 100 ms
     case = {"n": -1, "big": False, "phases": [[a, b]], "rsched": [NOCAP], "fsched": [NOCAP * 1000]}
     run_case(exe, case, os.path.join(ctx.scratch, "w2"))
-    mixed = b["recv"] is not None and (b"11.dat" in b["recv"] or b["recv"].get(b"task.txt") != f2[b"task.txt"])
+    d = a["recv"] or {}          # the server's "uftrace.data" when both are done
+    mixed = (b"11.dat" in d and b"22.dat" in d) or d.get(b"task.txt") not in (f1[b"task.txt"], f2[b"task.txt"])
     return mixed, observed(case)
 
 
@@ -967,7 +968,7 @@ def run(ctx):
     objdir, exe = setup(ctx)
     rng = ctx.rng
     # 1. small in-process cases, full model comparison
-    nsmall = ctx.n(140, 1600)
+    nsmall = ctx.n(200, 1600)
     cases = [gen_case(rng, i, reuse=(i % 9 == 4)) for i in range(nsmall)]
     per = 200
     for off in range(0, len(cases), per):
